@@ -661,6 +661,9 @@ CASES = [
     ("crlf-only", "local a = 1\r\nlocal b = 2\r\n", []),
     ("lf-only-under-windows", "local a = 1\nlocal b = 2\n", ["--line-endings", "Windows"]),
     ("drifted-insert", "local t = {\n  1, 2 }\n" + R("b") + R("a") + "\nprint(a, b, t)\n", ["--sort-requires"]),
+    ("insert-at-end", R("c") + R("a") + R("b"), ["--sort-requires"]),
+    ("insert-at-end-after-code", "print(1)\n\n" + R("z") + R("m") + R("n"), ["--sort-requires"]),
+    ("insert-at-end-no-final-newline", R("c") + R("a") + 'local b = require("b")', ["--sort-requires"]),
     ("moved-block-2", R("e") + R("f") + R("g") + R("a") + R("b") + R("c"), ["--sort-requires"]),
 ]
 
@@ -725,6 +728,16 @@ def battery():
     for name, src, flags in CASES:
         w = clireplay.run_cli(binp, {"f.lua": src}, flags + ["f.lua"])
         formatted = w["after"]["f.lua"][0].decode()
+        # the same text through stdin, every format: something is reported / status 1 exactly when the text differs from its formatted form
+        for text, tag in ((src, "as written"), (formatted, "already formatted")):
+            for fmt in ("unified", "standard", "summary", "json"):
+                r = clireplay.run_cli(binp, {}, ["--check", "--output-format", fmt] + flags + ["-"], stdin=text)
+                differs = text != formatted
+                rec = {"source": text, "flags": flags + ["-"], "format": fmt, "stdout": r["out"][:800], "formatted": formatted}
+                reported = bool(r["out"].strip()) if fmt != "summary" else any(ln.strip() in ("stdin", "-") for ln in r["out"].splitlines())
+                if (r["rc"] != 0) != differs or reported != differs:
+                    fails.append(({("wiring", fmt.capitalize()), ("wiring", "any"), "any"}, name, f"scenario {name}/{fmt} (stdin, {tag}): exit status {r['rc']}, output {r['out'][:80]!r} although "
+                                  f"the text {'differs from' if differs else 'equals'} its formatted form", rec))
         okfile = clireplay.FORMATTED.replace("\n", "\r\n") if "Windows" in flags else clireplay.FORMATTED      # already formatted under these flags
         for fmt in ("unified", "standard", "summary"):
             r = clireplay.run_cli(binp, {"f.lua": src, "ok.lua": okfile}, ["--check", "--output-format", fmt] + flags + ["f.lua", "ok.lua"])
